@@ -634,6 +634,12 @@ theorem step0_ok (a : Args) (lods : List LOD) (h : LodsOK (allSteps (levelsFor a
     · right; exact (levels_not_month _ hl).2
 
 
+theorem segEnd_eq_walk (cal : Cal) (s : Int) (n : Nat) (t : Int) :
+    segEnd cal s n t = (walk cal (List.replicate n s) t).2 := by
+  induction n generalizing t with
+  | zero => simp [segEnd, walk]
+  | succ n ih => simp [segEnd, walk, List.replicate_succ, ih]
+
 theorem lodRanges_steps (cal : Cal) (lods : List LOD) (t : Int) :
     (lodRanges cal lods t).map (·.2.2) = lods.map (·.step) := by
   induction lods generalizing t with
@@ -670,7 +676,7 @@ theorem lodRanges_to (cal : Cal) (lods : List LOD) (t : Int) (j : Nat) (r : Int 
     cases j with
     | zero =>
       simp [lodRanges] at h hl
-      subst hl; rw [← h]; simp [genSeg_eq_walk]
+      subst hl; rw [← h]; simp [segEnd_eq_walk]
     | succ j =>
       simp only [lodRanges, List.getElem?_cons_succ] at h hl
       exact ih _ _ h hl
@@ -684,7 +690,7 @@ theorem lodRanges_enumerate (cal : Cal) (lods : List LOD) (t : Int) :
   | cons l ls ih =>
     rw [expand_cons, walk_append]
     simp only [lodRanges, List.zip_cons_cons, List.flatMap_cons]
-    rw [ih, genSeg_eq_walk]
+    rw [ih, segEnd_eq_walk]
 
 
 theorem roundTime_pred (t s off : Int) (hs : 0 < s) (ha : (t + off) % s = 0) : roundTime (t - 1) s off = t - s := by
